@@ -4,6 +4,7 @@ import Blf.Spec.ObjectTypes
 import Blf.UFile
 import Blf.Queue
 import Blf.FileSeq
+import Blf.Api
 /-!
 # Line-protocol driver for the correspondence harness (tie D)
 
@@ -204,6 +205,28 @@ def handleFile (cfg : Cfg) (toks : List String) : String :=
     "writefile out=" ++ toHex out
   | _ => "bad-request"
 
+def handleApi (toks : List String) : String :=
+  match toks with
+  | n :: ops =>
+    let nobjs := n.toNat?.getD 0
+    let b (x : Bool) := if x then "1" else "0"
+    let r := ops.foldl (fun (acc : Api.S × List String) op =>
+      let s := acc.1
+      let o : Option Api.Op := match op with
+        | "om" => some .openMissing | "ou" => some .openUnwritable | "oi" => some (.openIn nobjs) | "oo" => some .openOut
+        | "r" => some .read | "w" => some .write | "c" => some .close | "d" => some .destroy | _ => none
+      match o with
+      | none => acc
+      | some .destroy => (Api.step s .destroy, acc.2)
+      | some o =>
+        if s.destroyed then acc else
+        let s' := Api.step s o
+        let extra := if op == "r" then (if s.remaining > 0 then " obj" else " null") else ""
+        (s', (op ++ extra ++ " open=" ++ b s'.isOpen ++ " good=" ++ b s'.good ++ " eof=" ++ b s'.eof) :: acc.2)) (({} : Api.S), [])
+    let fin := Api.step r.1 .destroy
+    "api " ++ " | ".intercalate r.2.reverse ++ " | end leak=" ++ toString fin.libOwned ++ " threads=" ++ toString fin.threads
+  | _ => "bad-request"
+
 structure Sess where
   uf : UFile.State := {}
   q : Queue.State := {}
@@ -303,6 +326,9 @@ partial def loop (cfg : Cfg) (ss : Sess) (hin : IO.FS.Stream) (hout : IO.FS.Stre
       let r := handleQ acc.1 (op.splitOn ":")
       (r.1, r.2 :: acc.2)) ({ q := {} }, [])
     hout.putStrLn ("qseq " ++ " | ".intercalate outs.2.reverse)
+    loop cfg ss hin hout
+  | "api" :: rest =>
+    hout.putStrLn (handleApi rest)
     loop cfg ss hin hout
   | "readfile" :: rest =>
     hout.putStrLn (handleFile cfg ("readfile" :: rest))
